@@ -35,6 +35,50 @@ func c13child(args []string) {
 	l.Close()
 	var progress int64
 	var wg sync.WaitGroup
+	if mode == "stream-bindfail" || mode == "packet-bindfail" {
+		// error paths: a Listen that fails at bind (the address is held by someone else), then
+		// the same address again once it is free, and an unrelated address
+		G = 0
+		wg.Add(1)
+		go func() {
+			defer wg.Done()
+			for i := 0; i < iters; i++ {
+				addr := fmt.Sprintf("127.0.0.1:%d", base+1+i%50)
+				if mode == "stream-bindfail" {
+					own, err := net.Listen("tcp", addr)
+					if err != nil {
+						continue
+					}
+					if ln, err := mgr.ListenStream(addr); err == nil {
+						ln.Close()
+					}
+					own.Close()
+					atomic.AddInt64(&progress, 1)
+					if ln, err := mgr.ListenStream(addr); err == nil {
+						ln.Close()
+					}
+				} else {
+					own, err := net.ListenPacket("udp", addr)
+					if err != nil {
+						continue
+					}
+					if pc, err := mgr.ListenPacket(addr); err == nil {
+						pc.Close()
+					}
+					own.Close()
+					atomic.AddInt64(&progress, 1)
+					if pc, err := mgr.ListenPacket(addr); err == nil {
+						pc.Close()
+					}
+				}
+				atomic.AddInt64(&progress, 1)
+				if ln, err := mgr.ListenStream(fmt.Sprintf("127.0.0.1:%d", base)); err == nil {
+					ln.Close()
+				}
+				atomic.AddInt64(&progress, 1)
+			}
+		}()
+	}
 	for g := 0; g < G; g++ {
 		wg.Add(1)
 		go func(g int) {
@@ -126,10 +170,10 @@ func c13(ctx *Ctx) {
 	runs := []struct {
 		mode     string
 		g, iters int
-	}{{"stream-same", 8, 3000}, {"packet-same", 8, 3000}, {"stream-distinct", 8, 300}, {"mixed-same", 8, 2000}}
+	}{{"stream-same", 8, 3000}, {"packet-same", 8, 3000}, {"stream-distinct", 8, 300}, {"mixed-same", 8, 2000}, {"stream-bindfail", 1, 200}, {"packet-bindfail", 1, 200}}
 	if ctx.Thorough() {
 		for i := 0; i < 6; i++ {
-			runs = append(runs, runs[i%4])
+			runs = append(runs, runs[i%6])
 		}
 	}
 	for _, rn := range runs {
